@@ -19,8 +19,8 @@ the literal 2.048 is the double 0x1.0624dd2f1a9fcp+1 and the product is rounded.
 comparisons `mach > 1.`, `mach < 0.4`, `mach > 0.5` are modelled by integer thresholds on the
 10-bit code (`machGt1`, `machLt04`, `machGt05`); `F64` below evaluates the same comparisons with
 IEEE-754 round-to-nearest-even arithmetic done on integers, and the two agree on all 1024 codes
-(checked by `#eval` at the end of the file during development and by the exhaustive Mach sweep
-of the correspondence harness against the real code; a `decide` theorem can state it).
+(theorem `F64.thresholds_agree` at the end of the file, a complete kernel enumeration; the
+exhaustive Mach sweep of the correspondence harness checks the same against the real code).
 The reported Mach value is the exact rational value·0.004 (the double differs by < 2 ulp).
 -/
 import Rs1090.Model.Decode.Common
@@ -157,6 +157,11 @@ def machGt05 (value : Nat) : Bool := machNum value > 2 ^ 57
 def agrees (value : Nat) : Bool :=
   machEq0 value == Bds60.machEq0 value && machGt1 value == Bds60.machGt1 value &&
   machLt04 value == Bds60.machLt04 value && machGt05 value == Bds60.machGt05 value
+
+/-- machine-checked: on all 1024 Mach codes the integer thresholds used by `mach` are the
+    IEEE-754 comparisons (complete kernel enumeration) -/
+theorem thresholds_agree : ∀ value, value < 2 ^ 10 → agrees value = true :=
+  forall_lt_of_allBits agrees 10 (by decide +kernel)
 
 end F64
 
